@@ -474,7 +474,11 @@ func live(c *core.Ctx) {
 			}
 			conns = append(conns, &liveConn{conn: cn, br: bufio.NewReader(cn)})
 		}
-		rec.Emit("newrun", "tree", json.RawMessage(tj))
+		var leafPaths [][]int
+		for _, l := range rd.leaves {
+			leafPaths = append(leafPaths, l.path)
+		}
+		rec.Emit("newrun", "tree", json.RawMessage(tj), "leaves", leafPaths)
 		ohost := origin.Listener.Addr().String()
 		ok := true
 		var ops []string
@@ -729,6 +733,10 @@ func concurrent(c *core.Ctx) {
 			c.Inconclusive("concurrent driver: code=%d err=%v %s", code, err, firstLines(log, 20))
 			continue
 		}
+		if err := perLeaf(out); err != nil {
+			c.Inconclusive("concurrent driver trace: %v", err)
+			continue
+		}
 		v, err := core.ValidateTrace(c.Work, "VerifyLin", "VerifyLin.cfg", out, 10*time.Minute, nil)
 		if err != nil || v.Infra {
 			c.Inconclusive("trace validation failed to run: %v %s", err, tail(v.Res))
@@ -755,6 +763,51 @@ func concurrent(c *core.Ctx) {
 				map[string]interface{}{"trace": keep, "line": v.HighWater})
 		}
 	}
+}
+
+// perLeaf rewrites a recorded trace so that every run appears once per verifier leaf, with that
+// leaf in focus: the code is atomic per verifier, not per tree (see VerifyLin.tla).
+func perLeaf(path string) error {
+	b, err := os.ReadFile(path)
+	if err != nil {
+		return err
+	}
+	var out []string
+	var run []string
+	flush := func() error {
+		if len(run) == 0 {
+			return nil
+		}
+		var head struct {
+			Tree   json.RawMessage `json:"tree"`
+			Leaves [][]int         `json:"leaves"`
+		}
+		if err := json.Unmarshal([]byte(run[0]), &head); err != nil {
+			return err
+		}
+		for _, lf := range head.Leaves {
+			if lf == nil {
+				lf = []int{}
+			}
+			hb, _ := json.Marshal(map[string]interface{}{"ev": "newrun", "tree": head.Tree, "focus": lf})
+			out = append(out, string(hb))
+			out = append(out, run[1:]...)
+		}
+		run = nil
+		return nil
+	}
+	for _, l := range strings.Split(strings.TrimRight(string(b), "\n"), "\n") {
+		if strings.Contains(l, `"ev":"newrun"`) {
+			if err := flush(); err != nil {
+				return err
+			}
+		}
+		run = append(run, l)
+	}
+	if err := flush(); err != nil {
+		return err
+	}
+	return os.WriteFile(path, []byte(strings.Join(out, "\n")+"\n"), 0o644)
 }
 
 func firstLines(s string, n int) string {
